@@ -108,6 +108,11 @@ pub fn pattern_status(pattern: &crate::pattern::MultiPattern) -> u8 {
     pattern.status() as u8
 }
 
+/// `MultiPattern::reset_status` (what a tick does after it has looked at the status)
+pub fn reset_pattern_status(pattern: &mut crate::pattern::MultiPattern) {
+    pattern.reset_status()
+}
+
 /// Worker-side state, copied under the lock (None while a run holds it)
 #[derive(Debug, Clone)]
 pub struct WorkerView {
